@@ -13,5 +13,4 @@ search = af.LBFGS(name="fit")
 search.paths.model, search.paths.unique_tag = model, None
 search.paths.save_all()                                # what pre_fit_output writes: model.json, search.json, ...
 folder, reread = Path(search.paths.output_path).name, SearchOutput(Path(search.paths.output_path)).id
-assert folder != reread, "identifiers agree (defect repaired?)"
-print("VIOLATION: output folder", folder, "but SearchOutput.id", reread)
+print("VIOLATION: output folder %s but SearchOutput.id %s" % (folder, reread) if folder != reread else "no violation: SearchOutput.id is the folder name (repaired in /repo, 74a3352)")
